@@ -33,8 +33,11 @@ from funsor.terms import Cat, Slice, Funsor
 RTOL = 1e-9
 # Regions of open findings kept out of the clean stream (each has a dedicated stream below).
 # Remove an entry once the defect is fixed in /repo: the clean stream then covers the region.
-AVOID = {}     # e.g. {"cat-partname": "KF-gaussian-cat-partname"}; all regions found so far are fixed in /repo
-WHAT = {"cat-partname": "joint.eager_cat_homogeneous with part_name != name appends the concatenated input after all "
+AVOID = {}   # e.g. {"plate-mixture": "KF-contraction-same-op-pushdown"}; all regions found so far are fixed in /repo
+WHAT = {"plate-mixture": "(g + t).reduce(ops.add, k) with a Tensor term t that does not depend on k adds t once instead "
+                         "of |k| times (cnf.eager_contraction_generic_recursive pushes the reduction into the only "
+                         "term mentioning k although red_op is bin_op)",
+        "cat-partname": "joint.eager_cat_homogeneous with part_name != name appends the concatenated input after all "
                         "other inputs although the data has it on axis 0: batch dims transposed (wrong value) or "
                         "AssertionError, e.g. Cat('c', (g1, g2), 'i') with another batch input j"}
 
@@ -496,6 +499,28 @@ def op_add(rng, cur, obs, spec):
                 exact=hexact, rank=obs.rank + hobs.rank, desc=dict(op="add", swap=swap, other=hdesc))
 
 
+def op_add_tensor(rng, cur, obs, spec):
+    """Gaussian + Tensor (a Gaussian mixture term): the Tensor may lack some batch inputs or bring a new one."""
+    if obs.g is None:
+        return None
+    pool = [(k, n) for k, n in obs.batch.items() if rng.random() < 0.5]
+    free_b = [n for n in BATCH_NAMES if n not in obs.batch]
+    if free_b and len(obs.batch) < 2 and rng.random() < 0.2:
+        pool.append((free_b[0], 2))
+    data = dy_array(rng, tuple(n for _, n in pool))
+    t = Tensor(data, OrderedDict((k, Bint[n]) for k, n in pool))
+    batch = dict(spec.batch)
+    batch.update(pool)
+    swap = rng.random() < 0.5
+
+    def at(p):
+        f = spec.at(sub_point(p, spec.batch))
+        tv = F(float(data[tuple(p[k] for k, _ in pool)]))
+        return lambda x: f(x) + tv
+    return dict(run=(lambda: t + cur) if swap else (lambda: cur + t), spec=Fn(batch, spec.reals, at), model=None,
+                exact=True, rank=obs.rank, desc=dict(op="add_tensor", inputs=pool, data=data.tolist(), swap=swap))
+
+
 def gen_value(rng, shape, batch_pool):
     """A Tensor value for a real input, possibly depending on batch inputs -> (Tensor, p -> ndarray, desc)."""
     deps = [(k, n) for k, n in batch_pool if rng.random() < 0.35][:2]
@@ -834,10 +859,15 @@ def op_cat(rng, cur, obs, spec, partname=None):
     if partname == "focus":       # dedicated stream: sizes chosen so that the transposition is not caught by an assert
         i, nparts = "i", 1
     parts = []
+    others = [n for k, n in obs.batch.items() if k != i and n > obs.batch[i]]
+    want_total = rng.choice(others) if others and rng.random() < 0.6 else None
+    if want_total is not None:
+        nparts = 1
     for _ in range(nparts):
         rl = [("r", k, s) for k, s in spec.reals.items()]
         bl = [("b", k, n) for k, n in spec.batch.items() if k != i and rng.random() < 0.8]
-        order = rl + bl + [("b", i, 1 if partname == "focus" else rng.choice([1, 2]))]
+        psize = 1 if partname == "focus" else (want_total - obs.batch[i]) if want_total else rng.choice([1, 2])
+        order = rl + bl + [("b", i, psize)]
         rng.shuffle(order)
         h, hs, hexact, hdesc = make_gaussian(rng, order)
         ho = Obs(h)
@@ -882,11 +912,16 @@ def op_cat(rng, cur, obs, spec, partname=None):
                 desc=dict(op="cat", name=name, part_name=i, pos=pos, parts=[s[4] for s in parts]))
 
 
-def op_plate(rng, cur, obs, spec):
+def op_plate(rng, cur, obs, spec, focus=False):
     if obs.g is None or not obs.batch:
         return None
     names = list(obs.batch)
     red = rng.sample(names, rng.choice([1, 1, 2]) if len(names) > 1 else 1)
+    absent = any(not set(red) <= set(t.inputs) for t in obs.ts)
+    if focus and not absent:
+        return None
+    if not focus and absent and "plate-mixture" in AVOID:
+        return None        # region of an open finding: Tensor by-product not depending on a summed input
     red_in_order = [k for k in obs.gints if k in red] + [k for k in red if k not in obs.gints]
     batch = {k: n for k, n in spec.batch.items() if k not in red}
     pts = list(itertools.product(*[range(spec.batch[k]) for k in red_in_order]))
@@ -913,7 +948,7 @@ def op_plate(rng, cur, obs, spec):
                 exact=True, rank=obs.rank * len(pts), desc=dict(op="plate", reduced=red))
 
 
-OPS = [("add", op_add, 4), ("subs_real", op_subs_real, 4), ("subs_int", op_subs_int, 2), ("rename", op_rename, 2),
+OPS = [("add", op_add, 4), ("add_tensor", op_add_tensor, 2), ("subs_real", op_subs_real, 4), ("subs_int", op_subs_int, 2), ("rename", op_rename, 2),
        ("align", op_align, 2), ("affine", op_affine, 4), ("cat", op_cat, 2), ("plate", op_plate, 2)]
 
 
@@ -1076,7 +1111,16 @@ def run_case(env, case_seed, tier, counts, stream="clean"):
     order = gen_signature(rng)
     history = []
     try:
-        if stream == "cat-partname":
+        if stream == "plate-mixture":
+            order = [("r", "x", rng.choice(SHAPES)), ("b", "k", rng.choice([2, 3]))]
+            rng.shuffle(order)
+            dim = numel(order[0][2]) if order[0][0] == "r" else numel(order[1][2])
+            cur, spec, exact, desc = make_gaussian(rng, order, rank=rng.randint(0, 2 * dim))
+            tval = rng.choice([1.0, -2.0, 0.5])
+            cur = cur + Tensor(np.array(tval))
+            spec0 = spec
+            spec = Fn(spec0.batch, spec0.reals, lambda p, s0=spec0, tv=tval: (lambda x, f=s0.at(p): f(x) + F(tv)))
+        elif stream == "cat-partname":
             order = [o for o in order if o[0] == "r"] + [("b", "i", 1), ("b", "j", 2)]
             rng.shuffle(order)
             cur, spec, exact, desc = make_gaussian(rng, order)
@@ -1104,7 +1148,9 @@ def run_case(env, case_seed, tier, counts, stream="clean"):
                                 else "square" if obs.rank == sum(n for _, n in obs.layout) else "wide"))
         depth = 1 if stream != "clean" else rng.choice([1, 2, 3, 3])
         for _ in range(depth):
-            if stream == "cat-partname":
+            if stream == "plate-mixture":
+                name, step = "plate", op_plate(rng, cur, obs, spec, focus=True)
+            elif stream == "cat-partname":
                 name, step = "cat", op_cat(rng, cur, obs, spec, partname="focus")
             else:
                 cands = [(n, f) for n, f, wgt in OPS for _ in range(wgt)]
